@@ -127,3 +127,6 @@ for _pid, _p in PROPERTIES.items():
 for _pid in ("C12", "C13"):
     if gym.rule_c09_spaces not in PROPERTIES[_pid]["rules"]:
         PROPERTIES[_pid]["rules"].insert(-1, gym.rule_c09_spaces)
+
+if gym.rule_c09_step not in PROPERTIES["C13"]["rules"]:
+    PROPERTIES["C13"]["rules"].insert(-1, gym.rule_c09_step)     # the solvers probe with step / unstep: the transitions are total (Y1)
